@@ -1,10 +1,428 @@
-import Witverif.Abi.RustAsync
-import Witverif.Abi.AsyncHostCall
-namespace Witverif.Props.C08
-open Witverif.Abi
+import Witverif.Proofs.RustAsyncLayout
+import Witverif.Proofs.RustAsyncValues
+import Witverif.Proofs.ExportGlue
+import Witverif.Proofs.SpecRoundtrip
+import Witverif.Props.C02
+import Witverif.Props.C21
+/-!
+# C08 — Rust async imports and exports deliver the same values as sync ones
 
-/-- placeholder while the check is being built -/
-theorem placeholder_layout_example :
-    RustAsync.abiLayout ⟨false, [.u64, .u64, .u64, .u64, .u8], some .u8⟩ = (⟨40, 40⟩, ⟨8, 8⟩) := by decide
+Objects.
+* `Abi/RustAsync.lean` — what `generate_guest_import_body_async` / the async `generate_guest_export`
+  (crates/rust/src/interface.rs) compose out of the shared generator (`Abi/Gen.lean`, tied to abi.rs
+  by C01–C03): `heap_types`, `abi_layout`, `results_offset`, `params_lower`, `results_lift`,
+  `params_dealloc_lists[_and_own]`, the async export body.
+* `Abi/AsyncHostCall.lean` — SPEC side: how a canonical-ABI host passes/receives values over
+  `[async-lower]` / `[async-lift]` / `task.return`, and what it requires of the parameter/result area.
+* `Async/ExportGlue.lean` — the wrapper's root future (`TaskCancelOnDrop` guard, `forget` +
+  `task.return`) composed with the executor LTS of C22; `Async/GlueSpec.lean` — SPEC monitors over
+  what the host observes; `Async/Subtask.lean` (C21) — the runtime half of an async import call.
+
+Tie (checks/C08.py, every run): the real generator binds seeded functions sync AND async, both are
+compiled and run natively against the real runtime and a scripted host; the layout numbers in the
+generated text are compared with `RustAsync.layoutStr` at both pointer widths; `GlueSpec` monitors run
+on the real observations; values/ledger are compared with the spec and between the two bindings.
+
+Theorem names ending in `_partial` prove the stated claim for a sub-domain only (what is missing is said
+at the theorem); `_full_false` is the refutation of a full-strength claim on the current code.
+-/
+namespace Witverif.Props.C08
+open Witverif.Abi Witverif.Abi.RustAsync
+
+/-! ## 1. `abi_layout`, `results_offset`, parameter offsets (all functions, both pointer widths) -/
+
+/-- **The params/results area of an async-lowered import is laid out as the canonical ABI requires.**
+For every function (any parameter and result types, any number of parameters) and both pointer
+widths, with `(size, align) = abi_layout` and `roff = results_offset` as the generator computes them:
+if the parameters travel through memory (more than 4 flat values) the parameter pointer — the base of
+the area — is aligned for the parameter tuple and the whole tuple lies inside the area; if there is a
+result the result pointer `base + roff` is aligned for the result type, the result lies inside the
+area, and it begins at or after the end of the last parameter (so the host's `load` of the parameters
+when the callee starts and its `store` of the result when it returns never overlap); `align > 0`. -/
+theorem abi_layout_meets_spec (p : Nat) (hp : p = 4 ∨ p = 8) (f : Func) :
+    AsyncHost.areaOk p f.params f.result ((abiLayout f).1.at p) ((abiLayout f).2.at p) ((resultsOffset f).at p) = true :=
+  areaOk_model p hp f
+
+/-- Non-vacuity: `f(u64, u64, u64, u64, u8) -> u8` (5 flat parameters: indirect): 40 bytes aligned 8,
+the result at offset 33 — inside the trailing padding of the parameter tuple, which the host never
+reads; and the monitor is not trivially true: offset 32 (overlapping the last parameter) is rejected. -/
+example :
+    abiLayout ⟨false, [.u64, .u64, .u64, .u64, .u8], some .u8⟩ = (⟨40, 40⟩, ⟨8, 8⟩) ∧
+    resultsOffset ⟨false, [.u64, .u64, .u64, .u64, .u8], some .u8⟩ = ⟨33, 33⟩ ∧
+    AsyncHost.areaOk 8 [.u64, .u64, .u64, .u64, .u8] (some .u8) 40 8 32 = false ∧
+    AsyncHost.areaOk 4 [.u64, .u64, .u64, .u64, .u8] (some .u8) 32 8 33 = false := by decide
+
+/-- **Parameter `i` is stored where the host reads it.**  With indirect parameters `params_lower`
+stores parameter `i` at `field_offsets(params)[i]`, the offsets of the parameter TUPLE — and these are
+a prefix of the field offsets of `heap_types = params ++ [result]`, from which `abi_layout` and
+`results_offset` are computed: appending the result moves no parameter. -/
+theorem param_offsets_are_tuple_offsets (f : Func) (hi : indirect f = true) :
+    paramOffsets f = fieldOffs f.params ∧
+    ∀ t, f.result = some t → (fieldOffs (heapTypes f)).take f.params.length = fieldOffs f.params :=
+  paramOffsets_are_tuple_offsets f hi
+
+example : paramOffsets ⟨false, [.u8, .u64, .string, .u16, .u8], some .u64⟩
+    = [⟨0, 0⟩, ⟨8, 8⟩, ⟨16, 16⟩, ⟨24, 32⟩, ⟨26, 34⟩] := by decide
+
+/-- Without indirect parameters (at most 4 flat values) only the result lives in the area, at offset 0. -/
+theorem results_offset_zero_without_indirect_params (p : Nat) (hp : p = 4 ∨ p = 8) (f : Func)
+    (hi : indirect f = false) : (resultsOffset f).at p = 0 :=
+  resultsOffset_direct p hp f hi
+
+example : indirect ⟨false, [.string, .string], some .string⟩ = false ∧
+    indirect ⟨false, [.string, .string, .bool], none⟩ = true := by decide
+
+/-- The generator's decision "parameters through memory" is the spec's (more than
+MAX_FLAT_ASYNC_PARAMS = 4 flat values), at both pointer widths. -/
+theorem indirect_params_decision_is_spec (p : Nat) (hp : p = 4 ∨ p = 8) (f : Func) :
+    AsyncHost.paramsIndirect p f.params = indirect f :=
+  indirect_iff_spec p hp f
+
+/-! ## 2. Values: the async lower / lift streams decode like the sync ones
+
+Full-strength statement: for every function, all argument and result values, the host lifts from the
+async binding exactly the values it lifts from the sync binding, and Rust code observes exactly the
+same results.  Proved below: parameters for all memory-free types (flat and through the parameter
+record), results for ALL types on the import side (`results_lift` = `Spec.load`), and the export side
+for memory-free types passed flat.  Not proved in Lean (validated by the native runs of every check):
+parameters whose lowering allocates (strings, lists, maps: the reference machine's allocation ledger
+theorem of C03 is still open), exports with indirect parameters or a result through memory. -/
+
+/-- **Async import, at most 4 flat parameters** (memory-free parameter types): the operands handed to
+`[async-lower]f` are the canonical flat lowering of the argument tuple — literally the operands the
+SYNC glue passes to `f` — and nothing is stored or allocated to produce them.  Missing for the full
+statement: parameter types that need linear memory. -/
+theorem async_import_params_flat_eq_sync_partial (p : Nat) (hp : p = 4 ∨ p = 8) (canon : Ty → Bool) (f : Func)
+    (vals : List Val) (hi : indirect f = false) (hm : memFreeAll f.params = true) (ht : Spec.hasTys f.params vals = true)
+    (m : Spec.Mem)
+    (ssA : List Stmt) (esA : List Expr) (hA : paramsLower canon f = .ok (ssA, esA))
+    (ssS : List Stmt) (esS : List Expr) (hS : lowerParams ⟨canon, false⟩ f.params 0 = .ok (ssS, esS)) :
+    ssA = [] ∧ ssS = [] ∧
+    evalList { p, args := vals.map MV.v } m esA = some ((specLowerAll p f.params vals {}).1.map MV.c) ∧
+    evalList { p, args := vals.map MV.v } m esS = evalList { p, args := vals.map MV.v } m esA := by
+  have a := paramsLower_flat_sound p hp canon f vals hi hm ht [] m {} ssA esA hA
+  simp only [List.append_nil] at a
+  have s := lowerParams_sound p hp ⟨canon, false⟩ { p, args := vals.map MV.v } m {} rfl rfl f.params vals 0 ssS esS hm ht
+    (by intro j hj; simp [hj]) hS
+  exact ⟨a.1, s.1, a.2, by rw [a.2, s.2.1]⟩
+
+/-- Non-vacuity: `f(a: u32, b: f64, c: bool, d: char)` has exactly 4 flat parameters and stays direct. -/
+example : indirect ⟨false, [.u32, .f64, .bool, .char], none⟩ = false ∧
+    ∃ es, paramsLower (fun _ => false) ⟨false, [.u32, .f64, .bool, .char], none⟩ = .ok ([], es) ∧ es.length = 4 :=
+  ⟨by decide, _, rfl, rfl⟩
+
+/-- **Async import, more than 4 flat parameters** (memory-free parameter types): `params_lower` leaves,
+at the pointer into the area it is handed, exactly the bytes of the canonical `store` of the parameter
+tuple (read-equivalent memory, heap untouched), and `ParamsLower` is that pointer — so the host's
+`load (tuple params)` when the callee starts yields the arguments.  Missing: types that allocate. -/
+theorem async_import_params_indirect_partial (p : Nat) (hp : p = 4 ∨ p = 8) (canon : Ty → Bool) (f : Func)
+    (vals : List Val) (hi : indirect f = true) (hm : memFreeAll f.params = true) (ht : Spec.hasTys f.params vals = true)
+    (addr : Nat) (s : MSt) (ss : List Stmt) (es : List Expr) (h : paramsLower canon f = .ok (ss, es)) :
+    es = [.arg f.params.length] ∧
+    ∃ ls m', execStmts { p, args := vals.map MV.v ++ [.c ⟨ptrFT p, addr⟩] } s ss
+        = some (({ p, args := vals.map MV.v ++ [.c ⟨ptrFT p, addr⟩] } : Env).withLets ls, s.setMem m') ∧
+      StEq ⟨m', s.st.heap⟩ (Spec.store p (.tuple f.params) (.record vals) addr s.st) :=
+  paramsLower_indirect_sound p hp canon f vals hi hm ht addr s ss es h
+
+/-- Non-vacuity: 5 `u8` parameters are indirect and `params_lower` emits one store per parameter. -/
+example : indirect ⟨false, [.u8, .u8, .u8, .u8, .u8], none⟩ = true ∧
+    ∃ ss, paramsLower (fun _ => false) ⟨false, [.u8, .u8, .u8, .u8, .u8], none⟩ = .ok (ss, [.arg 5]) ∧ ss.length = 5 :=
+  ⟨by decide, _, rfl, rfl⟩
+
+/-- **Async import results: `results_lift` is the canonical `load`, for every result type** (strings,
+lists, maps, variants, handles, any nesting), both pointer widths, any memory the host left, any
+address: it evaluates to exactly `Spec.load` at the result pointer and is stuck exactly when the spec
+traps.  The SYNC glue of the same function, when its result needs a return area, returns `Spec.load`
+of its return area (`Props.C02.import_glue_retptr_correct`): both bindings apply the same function to
+the bytes the host stored. -/
+theorem async_import_result_is_spec_load (p : Nat) (hp : p = 4 ∨ p = 8) (canon : Ty → Bool) (f : Func) (t : Ty)
+    (hr : f.result = some t) (addr : Nat) (m : Spec.Mem) (e : Expr) (h : resultsLift canon f = .ok (some e)) :
+    eval { p, args := [.c ⟨ptrFT p, addr⟩] } m e = (Spec.load p m t addr).map MV.v :=
+  resultsLift_sound p hp canon f t hr addr m e h
+
+/-- … hence **the async and the sync import binding deliver the same result** whenever the host stored
+the same bytes at the two result pointers: for a function with memory-free flat parameters and a result
+of ANY type needing more than one flat slot, the value the sync glue returns is the value
+`results_lift` evaluates to. -/
+theorem async_import_result_eq_sync (p : Nat) (hp : p = 4 ∨ p = 8) (canon : Ty → Bool) (f : Func) (t : Ty)
+    (hres : f.result = some t) (vals : List Val) (addr : Nat) (s0 : MSt)
+    (hm : memFreeAll f.params = true) (ht : Spec.hasTys f.params vals = true)
+    (hflat : (flattenList f.params).length ≤ 16) (hrflat : (flatten t).length > 1)
+    (ss : List Stmt) (hS : call canon .guestImport true false f = .ok ss)
+    (e : Expr) (hA : resultsLift canon f = .ok (some e)) :
+    (execStmts { p, args := vals.map MV.v, rps := [addr] } s0 ss).map (fun r => r.2.calls.head?.map (·.2)) =
+      (eval { p, args := [.c ⟨ptrFT p, addr⟩] } s0.st.mem e).map (fun rv => some [rv]) := by
+  have hs := Witverif.Props.C02.import_glue_retptr_correct p hp canon f t hres vals addr s0 hm ht hflat hrflat ss hS
+  have ha := async_import_result_is_spec_load p hp canon f t hres addr s0.st.mem e hA
+  rw [ha]
+  cases hl : Spec.load p s0.st.mem t addr with
+  | none =>
+    rw [hl] at hs
+    simp only [Option.map_none] at hs ⊢
+    cases hx : execStmts { p, args := vals.map MV.v, rps := [addr] } s0 ss with
+    | none => rfl
+    | some r => rw [hx] at hs; simp at hs
+  | some rv =>
+    rw [hl] at hs
+    simp only [Option.map_some] at hs ⊢
+    cases hx : execStmts { p, args := vals.map MV.v, rps := [addr] } s0 ss with
+    | none => rw [hx] at hs; simp at hs
+    | some r =>
+      rw [hx] at hs
+      simp only [Option.map_some, Option.some.injEq, Prod.mk.injEq] at hs
+      simp [hs.1]
+
+/-- Non-vacuity: `f(a: u32) -> tuple<string, u8>`: both bindings generate. -/
+example :
+    (∃ ss, call (fun _ => false) .guestImport true false ⟨false, [.u32], some (.tuple [.string, .u8])⟩ = .ok ss) ∧
+    (∃ e, resultsLift (fun _ => false) ⟨false, [.u32], some (.tuple [.string, .u8])⟩ = .ok (some e)) :=
+  ⟨⟨_, rfl⟩, ⟨_, rfl⟩⟩
+
+/-- **Async export = sync export on the values, everything flat** (not a method; memory-free parameters,
+at most 16 flat; memory-free result with at most ONE flat value, where the sync ABI also returns flat).
+Whatever well-formed core values the host passes and whatever the user function returns: both glues
+call the user function exactly once with the same values (both are stuck iff the spec traps, before
+anything is called); the core values the sync glue `Return`s are exactly the operands of the async
+glue's single `task.return`; neither frees anything.  Missing for the full statement: types that need
+memory, more than 16 flat parameters, results through memory (covered by the native runs). -/
+theorem async_export_values_eq_sync_partial (p : Nat) (hp : p = 4 ∨ p = 8) (canon : Ty → Bool) (f : Func)
+    (hnm : f.isMethod = false) (incoming : List CVal) (rv : Option Val)
+    (hm : memFreeAll f.params = true) (hflat : (flattenList f.params).length ≤ 16)
+    (hwf : WfFlat incoming (Spec.flattenList p f.params))
+    (hmr : memFreeOpt f.result = true) (hrflat : (flattenOpt f.result).length ≤ 1)
+    (hrv : Spec.hasTyOpt f.result rv = true)
+    (ssA : List Stmt) (hA : exportBody canon f = .ok ssA) (ssS : List Stmt) (hS : exportBodySync canon f = .ok ssS) :
+    let env : Env := { p, args := incoming.map MV.c, ifaceResult := rv.toList.map MV.v }
+    let X := (Spec.lowerOpt p f.result rv {}).1.map MV.c
+    (execStmts env {} ssA).map (fun r => (r.2.calls, r.2.freed)) =
+      (specLiftAll p [] f.params incoming).map (fun vals => ([("AsyncTaskReturn", X), ("CallInterface", vals.map MV.v)], [])) ∧
+    (execStmts env {} ssS).map (fun r => (r.2.calls, r.2.freed)) =
+      (specLiftAll p [] f.params incoming).map (fun vals => ([("Return", X), ("CallInterface", vals.map MV.v)], [])) := by
+  intro env X
+  exact ⟨Witverif.Props.C02.async_export_glue_task_return_once p hp canon f hnm incoming rv hm hflat hwf hmr (by omega) hrv ssA hA,
+    Witverif.Props.C02.export_glue_value_correct p hp canon f hnm incoming rv hm hflat hwf hmr hrflat hrv ssS hS⟩
+
+/-- **What the host decodes from `task.return`** (memory-free result with at most 16 flat values — the
+range in which the async ABI passes the result flat while the sync ABI may already use a return area):
+the operands of the single `task.return` are the canonical flat lowering of the user's result, and the
+host's `lift_flat` of these operands yields exactly that result. -/
+theorem task_return_operands_decode_partial (p : Nat) (hp : p = 4 ∨ p = 8) (canon : Ty → Bool) (f : Func) (t : Ty)
+    (hres : f.result = some t)
+    (hnm : f.isMethod = false) (incoming : List CVal) (v : Val)
+    (hm : memFreeAll f.params = true) (hflat : (flattenList f.params).length ≤ 16)
+    (hwf : WfFlat incoming (Spec.flattenList p f.params))
+    (hmr : memFree t = true) (hrflat : (flatten t).length ≤ 16) (hv : Spec.hasTy t v = true)
+    (ss : List Stmt) (h : exportBody canon f = .ok ss) (m : Spec.Mem) :
+    (execStmts { p, args := incoming.map MV.c, ifaceResult := [MV.v v] } {} ss).map (fun r => (r.2.calls, r.2.freed)) =
+      (specLiftAll p [] f.params incoming).map
+        (fun vals => ([("AsyncTaskReturn", (Spec.lowerFlat p t v {}).1.map MV.c), ("CallInterface", vals.map MV.v)], [])) ∧
+    Spec.liftFlat p m t (Spec.lowerFlat p t v {}).1 = some v := by
+  obtain ⟨im, ps, res⟩ := f
+  simp only at hres hnm hm hflat hwf h
+  subst hres
+  have h1 := Witverif.Props.C02.async_export_glue_task_return_once p hp canon ⟨im, ps, some t⟩ hnm incoming (some v) hm hflat hwf
+    (by simpa [memFreeOpt] using hmr) (by simpa [flattenOpt] using hrflat)
+    (by simpa [Spec.hasTyOpt] using hv) ss h
+  refine ⟨?_, liftFlat_lowerFlat p m v t {} hmr hv⟩
+  simpa [Spec.lowerOpt] using h1
+
+/-- Non-vacuity: `f(a: u8) -> tuple<u32, f64, u8>`: three flat result values — flat on `task.return`,
+through a return area in the sync ABI. -/
+example :
+    (flatten (.tuple [.u32, .f64, .u8])).length ≤ 16 ∧ ¬ (flatten (.tuple [.u32, .f64, .u8])).length ≤ 1 ∧
+    ∃ ss, exportBody (fun _ => false) ⟨false, [.u8], some (.tuple [.u32, .f64, .u8])⟩ = .ok ss :=
+  ⟨by decide, by decide, ⟨_, rfl⟩⟩
+
+/-! ## 3. Memory released: the full statement is false of the current code
+
+Full statement (properties.jsonl: "the memory released [is] the same as for its synchronous binding"),
+for the parameter record the HOST allocates through `cabi_realloc` when an export has more than 16 flat
+parameters:
+
+    ∀ canon f ssA ssS, exportBody canon f = .ok ssA → exportBodySync canon f = .ok ssS →
+        freesParamRecord ssA = freesParamRecord ssS
+
+is FALSE: `Generator::call` emits `GuestDeallocate` of the record only `if sig.indirect_params && !async_`
+(abi.rs), and the async wrapper has no other place that releases it: every call leaks the record.
+Witness: `f(p0: u32, …, p16: u32)`.  Replayed natively by checks/C08.py (class
+`async-export-param-record-not-freed`; the sync twin frees the block, the async binding does not). -/
+
+theorem async_export_releases_like_sync_full_false :
+    ¬ ∀ (canon : Ty → Bool) (f : Func) (ssA ssS : List Stmt),
+        exportBody canon f = .ok ssA → exportBodySync canon f = .ok ssS →
+        freesParamRecord ssA = freesParamRecord ssS := by
+  intro hall
+  have h := hall (fun _ => false) ⟨false, List.replicate 17 .u32, none⟩ _ _ rfl rfl
+  revert h
+  decide
+
+/-- The exact extra hypothesis: with at most 16 flat parameters there is no caller-allocated record and
+neither glue frees one (memory-free types, at most one flat result: the domain in which the shape of both
+glues is proved). -/
+theorem async_export_releases_like_sync_partial (canon : Ty → Bool) (f : Func) (hnm : f.isMethod = false)
+    (hflat : (flattenList f.params).length ≤ 16) (hmr : memFreeOpt f.result = true) (hrflat : (flattenOpt f.result).length ≤ 1)
+    (ssA ssS : List Stmt) (hA : exportBody canon f = .ok ssA) (hS : exportBodySync canon f = .ok ssS) :
+    freesParamRecord ssA = false ∧ freesParamRecord ssS = false := by
+  obtain ⟨argsA, _, hshA⟩ := call_export_async_flat_shape canon f hnm hflat (by omega) ssA hA
+  obtain ⟨argsS, _, hshS⟩ := call_export_flat_shape canon f hnm hflat hrflat ssS hS
+  cases hres : f.result with
+  | none =>
+    rw [hres] at hshA hshS
+    simp only at hshA hshS
+    subst hshA; subst hshS
+    simp [freesParamRecord]
+  | some t =>
+    rw [hres] at hshA hshS
+    simp only at hshA hshS
+    obtain ⟨s2A, rsA, hlA, rfl⟩ := hshA
+    obtain ⟨s2S, rsS, hlS, rfl⟩ := hshS
+    have hmt : memFree t = true := by simpa [hres, memFreeOpt] using hmr
+    have eA := (lower_shape _ t 0 _ s2A rsA hlA).1 hmt
+    have eS := (lower_shape _ t 0 _ s2S rsS hlS).1 hmt
+    subst eA; subst eS
+    simp [freesParamRecord]
+
+/-- Non-vacuity of the partial theorem and of the witness: 16 parameters stay flat, 17 do not; the sync
+glue of the witness does free the record. -/
+example :
+    (flattenList (List.replicate 16 Ty.u32)).length ≤ 16 ∧
+    (exportBodySync (fun _ => false) ⟨false, List.replicate 17 .u32, none⟩).toOption.map freesParamRecord = some true ∧
+    (exportBody (fun _ => false) ⟨false, List.replicate 17 .u32, none⟩).toOption.map freesParamRecord = some false := by
+  decide
+
+/-! ## 4. An async export reports `task.return` exactly once, or `task.cancel` exactly once if dropped -/
+
+section ExportSide
+open Witverif.Async Witverif.Async.ExportGlue Witverif.Async.GlueSpec
+
+/-- **Exactly one of `task.return` / `task.cancel`, and only legal ones.**  System: the generated wrapper's
+root future (guard `TaskCancelOnDrop`, `forget()` + `task.return` at the end) ∥ the executor of the real
+runtime (`start_task` / `callback`, C22's LTS) ∥ a conforming host, both feature settings of
+`inter-task-wakeup`.  For EVERY reachable state — every user function behaviour (when it suspends, when
+it completes), every executor step, every event order the host may choose, cancellation at any
+suspension —, with `m` the state of the specification monitor after what the host has observed so far:
+* the monitor accepted every observation: `task.return` at most once, `task.cancel` at most once and
+  never after a `task.return` (nor the converse), `task.cancel` only after the host delivered
+  EVENT_CANCEL, both only while a call into the task is running, the user function entered at most once;
+* `task.return` happened iff the user's future completed; `task.cancel` happened iff the suspended
+  future was dropped;
+* when the task has exited (callback code EXIT) exactly one of the two has happened, and the
+  end-of-life clause of the specification holds. -/
+theorem export_task_return_xor_cancel_exactly_once {itw : Bool} {s : Sys} (h : Reach itw s) :
+    ∃ m, expRun {} s.obs = .ok m ∧
+      m.returns + m.cancels ≤ 1 ∧
+      (m.returns = 1 ↔ s.fut = .done) ∧ (m.cancels = 1 ↔ s.fut = .dropped true) ∧
+      (m.cancels = 1 → m.cancelReq = true) ∧
+      (s.ex.pc = .gone → m.returns + m.cancels = 1 ∧ expComplete m = .ok ()) := by
+  obtain ⟨m, hm, hj⟩ := reach_J h
+  refine ⟨m, hm, ?_, ?_, ?_, ?_, ?_⟩
+  · rw [hj.returns, hj.cancels]
+    cases s.fut with
+    | dropped c => cases c <;> simp
+    | _ => simp
+  · rw [hj.returns]; cases s.fut <;> simp
+  · rw [hj.cancels]; cases hf : s.fut <;> simp
+  · intro hc
+    rw [hj.cancels] at hc
+    have hf : s.fut = .dropped true := by
+      cases hf : s.fut <;> simp [hf] at hc
+      exact hc ▸ rfl
+    -- the drop happened inside the destructor of the task state, which is entered with the root future
+    -- still alive only on EVENT_CANCEL
+    rw [hj.creq]
+    exact hj.dropCS hf
+  · intro hg
+    have hgone := hj.goneF (Or.inr hg)
+    have hnd := hj.noDF
+    have hsum : m.returns + m.cancels = 1 := by
+      rw [hj.returns, hj.cancels]
+      cases hf : s.fut with
+      | unpolled => simp [hf, Fut.gone] at hgone
+      | awaiting => simp [hf, Fut.gone] at hgone
+      | done => simp
+      | dropped c => cases c <;> simp_all
+    refine ⟨hsum, ?_⟩
+    have hex : m.exited = true := by rw [hj.exited, hg]; rfl
+    have hus : m.users = 1 := by
+      rw [hj.users]
+      cases hf : s.fut <;> simp_all [Fut.gone]
+    have hcr : ¬ (m.cancels = 1 ∧ m.cancelReq = false) := by
+      intro ⟨hc, hq⟩
+      rw [hj.cancels] at hc
+      have hf : s.fut = .dropped true := by
+        cases hf : s.fut <;> simp [hf] at hc
+        exact hc ▸ rfl
+      rw [hj.creq, hj.dropCS hf] at hq
+      exact Bool.noConfusion hq
+    unfold expComplete
+    simp only [hex, Bool.not_true, Bool.false_eq_true, if_false, hsum, ne_eq, not_true_eq_false, hus]
+    by_cases hc : m.cancels = 1
+    · have : m.cancelReq = true := by
+        cases hq : m.cancelReq
+        · exact absurd ⟨hc, hq⟩ hcr
+        · rfl
+      simp [hc, this]
+    · simp [hc]
+
+/-- Non-vacuity (the model's observations are exactly the token streams the real bindings produce in
+checks/C08.py): a task that completes in its first poll; a task that yields, is cancelled and answers
+with `task.cancel`. -/
+example :
+    (run (Sys.init false) [.hostCall, .exec (.cancelRead 0), .exec .tau, .rootPoll true, .exec (.pollDone true true),
+        .exec (.decide 0 0 0), .exec (.cancelRead 0), .exec .tau]).map (fun s => (s.obs, s.fut, s.ex.pc))
+      = some ([.call, .user, .ret, .cb 0], .done, .gone) ∧
+    (run (Sys.init false) [.hostCall, .exec (.cancelRead 0), .exec .tau, .rootPoll false, .exec (.wake 0),
+        .exec (.pollDone false false), .exec (.decide 0 0 0), .hostCb 6 0 0, .exec (.cancelRead 0), .rootDrop,
+        .exec .dropTasksDone, .exec .tau]).map (fun s => (s.obs, s.fut, s.ex.pc))
+      = some ([.call, .user, .cb 1, .ev 6, .cancel, .cb 0], .dropped true, .gone) := by
+  constructor <;> rfl
+
+/-- … and the specification monitor is not trivially true: an exit without `task.return`, a second
+`task.return`, and a `task.cancel` nobody asked for are rejected. -/
+example :
+    (match expCheck [.call, .user, .cb 0] with | .error c => c | .ok _ => "accepted") = "exit-without-return-or-cancel" ∧
+    (match expCheck [.call, .user, .ret, .ret, .cb 0] with | .error c => c | .ok _ => "accepted") = "task-return-twice" ∧
+    (match expCheck [.call, .user, .cb 1, .ev 0, .cancel, .cb 0] with | .error c => c | .ok _ => "accepted")
+      = "task-cancel-without-request" := by decide
+
+end ExportSide
+
+/-! ## 5. An async import keeps its lowered parameters alive until the callee has started -/
+
+open Witverif.Async Witverif.Async.SubtaskSpec in
+/-- **Nothing of the lowered parameters is released before the callee has started.**  System: one async
+import call of the real runtime (`Subtask::call` = `WaitableOperation<SubtaskOps>`, C21's LTS) under
+every legal host behaviour (every status sequence, every drop point, both `wasip3_task` versions).
+The guest releases lowered-parameter memory in exactly three places: `params_dealloc_lists` (the list
+and string buffers the lowering took over), `params_dealloc_lists_and_own`, and the drop of the area's
+`Cleanup` (the parameter record).  At EVERY occurrence of one of these in ANY reachable trace, the
+last status the host had reported was either a *started* one (STARTED, RETURNED, RETURNED_CANCELLED: the
+callee has started, hence has already read the parameters) or a *resolved* one (RETURNED,
+RETURNED_CANCELLED: started and finished; STARTED_CANCELLED: the callee will never start).  With `abi_layout_meets_spec` (the record and the result never overlap) this is the clause
+"an async import keeps its lowered parameters alive until the callee has started". -/
+theorem lowered_params_alive_until_started {spec : CallSpec} {t : CurTask} {c : CallSys} {m : CallMon} {tr : List Ev}
+    (hv : t.version = 1 ∨ t.version = 2) (h : Reach spec t c m tr) (pre post : List Ev) (e : Ev)
+    (htr : tr = pre ++ e :: post)
+    (he : e = .deallocLists spec.k ∨ e = .deallocListsOwn spec.k ∨ e = .free spec.k) :
+    ∃ mp, run spec.k { created := true } pre = .ok mp ∧ (startedKnown mp = true ∨ resolvedKnown mp = true) := by
+  rcases he with rfl | rfl | rfl
+  · obtain ⟨mp, hp, hs, _, _⟩ := (Witverif.Props.C21.params_lists_freed_once_after_start hv h).2.1 pre post htr
+    exact ⟨mp, hp, Or.inl hs⟩
+  · obtain ⟨mp, hp, hc, hr⟩ := (Witverif.Props.C21.owned_params_released_iff_cancelled_before_start hv h).2.1 pre post htr
+    refine ⟨mp, hp, Or.inr ?_⟩
+    simp [resolvedKnown, hc, hr, Host.resolved, Host.STARTED_CANCELLED, Host.RETURNED]
+  · obtain ⟨mp, hp, hr, _⟩ := (Witverif.Props.C21.param_area_live_until_started hv h).2.1 pre post htr
+    exact ⟨mp, hp, Or.inr hr⟩
+
+/-- Non-vacuity: in the model's run "starting, then the STARTED event, then RETURNED" the lists are freed
+right after the STARTED delivery and the area after the RETURNED one; and the specification rejects a
+trace that frees the lists while the callee is still STARTING. -/
+example :
+    (match Witverif.Async.SubtaskSpec.run 0 { created := true } [Witverif.Async.Ev.lower 0, .callImport 0 0 1, .deallocLists 0] with
+      | .error cls => cls | .ok _ => "accepted") = "lists-freed-before-start" ∧
+    (match Witverif.Async.SubtaskSpec.run 0 { created := true } [Witverif.Async.Ev.lower 0, .callImport 0 0 1, .free 0] with
+      | .error cls => cls | .ok _ => "accepted") = "area-freed-before-resolution" ∧
+    (match Witverif.Async.SubtaskSpec.run 0 { created := true } [Witverif.Async.Ev.lower 0, .callImport 0 0 1, .dlv 1 1, .deallocLists 0, .dlv 1 2, .lift 0, .free 0] with
+      | .error cls => cls | .ok _ => "accepted") = "accepted" := by decide
 
 end Witverif.Props.C08
